@@ -160,30 +160,29 @@ Proof.
 Qed.
 
 (* the geometric sum of all levels is exactly the bit-vector length, for every depth the code accepts *)
-Lemma geo_bin_limit : forall depth, depth < 10 ->
+Lemma geo_bin_limit : forall depth, depth <= 10 ->
   bin_limit depth = Ok (geo (N.to_nat depth) 0).
 Proof.
   intros depth H.
-  assert (Hin : In depth [0;1;2;3;4;5;6;7;8;9]).
+  assert (Hin : In depth [0;1;2;3;4;5;6;7;8;9;10]).
   { cbn [In]. lia. }
   cbn [In] in Hin.
   repeat (destruct Hin as [Hin|Hin]; [subst depth; vm_compute; reflexivity|]).
   contradiction.
 Qed.
 
-Theorem query_total : forall ms depth id s e,
-  known_query ms depth id = false -> is_panic (query ms depth id s e) = false.
+(* After the repairs: ReferenceSequence::query never panics — for EVERY min_shift, depth, bin id
+   and region; no excluded class. *)
+Theorem query_total : forall ms depth id s e, is_panic (query ms depth id s e) = false.
 Proof.
-  intros ms depth id s e Hk. unfold known_query in Hk.
-  apply orb_false_iff in Hk. destruct Hk as [Hk Hid].
-  apply orb_false_iff in Hk. destruct Hk as [Hk Hd].
-  apply orb_false_iff in Hk. destruct Hk as [Hms Hsh].
-  assert (Hd' : depth < 10) by lia.
-  rewrite (geo_bin_limit depth Hd') in Hid.
-  unfold query, resolve_interval, max_position.
-  rewrite Hms. destruct (64 <=? ms + 3 * depth) eqn:E64; [discriminate|].
+  intros ms depth id s e.
+  unfold query, resolve_interval, resolve_interval_with, max_position.
+  destruct (ms =? 0) eqn:Hms; [reflexivity|].
+  destruct (10 <? depth) eqn:Hd; [reflexivity|].
+  destruct (64 <=? ms + 3 * depth) eqn:E64; [reflexivity|].
   destruct (2 ^ (ms + 3 * depth) - 1 <? s) eqn:Es; [reflexivity|].
   destruct (2 ^ (ms + 3 * depth) - 1 <? e) eqn:Ee; [reflexivity|].
+  assert (Hd' : depth <= 10) by lia.
   rewrite (geo_bin_limit depth Hd').
   pose proof (reg2bins_total (N.to_nat depth) 0 0 (ms + depth * 3) (s - 1) (e - 1)
                 (geo (N.to_nat depth) 0) id false) as HR.
@@ -194,50 +193,58 @@ Proof.
   assert (H3 : 0 + geo (N.to_nat depth) 0 <= geo (N.to_nat depth) 0) by lia.
   specialize (HR H1 H2 H3).
   destruct (reg2bins (N.to_nat depth) 0 0 (ms + depth * 3) (s - 1) (e - 1)
-              (geo (N.to_nat depth) 0) id false) as [sel| |x]; try reflexivity; try discriminate.
-  destruct (id <? geo (N.to_nat depth) 0) eqn:Ei; [reflexivity | lia].
+              (geo (N.to_nat depth) 0) id false) as [sel| |x]; try reflexivity; discriminate.
 Qed.
 
-(* every clause of known_query is a real panic: one witness per site *)
-Example query_witness_min_shift_0 : query 0 5 0 1 1 = Panic S_ASSERT_MIN_SHIFT.
+(* a hostile geometry is now an error, whatever the region and the bins *)
+Theorem query_hostile_geometry_err : forall ms depth id s e,
+  ms = 0 \/ 10 < depth \/ 64 <= ms + 3 * depth -> query ms depth id s e = Err.
+Proof.
+  intros ms depth id s e H. unfold query, resolve_interval, resolve_interval_with, max_position.
+  destruct (ms =? 0) eqn:E0; [reflexivity|].
+  destruct (10 <? depth) eqn:Ed; [reflexivity|].
+  destruct (64 <=? ms + 3 * depth) eqn:E64; [reflexivity | lia].
+Qed.
+
+(* a bin id outside the scheme is never selected *)
+Theorem query_hostile_bin_not_selected : forall ms depth id s e nbits,
+  bin_limit depth = Ok nbits -> nbits <= id ->
+  query ms depth id s e = Err \/ query ms depth id s e = Ok false.
+Proof.
+  intros ms depth id s e nbits Hb Hid.
+  pose proof (query_total ms depth id s e) as HT. unfold query in *.
+  destruct (resolve_interval ms depth s e) as [[s' e']| |x]; [|left; reflexivity|discriminate].
+  rewrite Hb in *.
+  destruct (reg2bins (N.to_nat depth) 0 0 (ms + depth * 3) (s' - 1) (e' - 1) nbits id false) as [sel| |x].
+  - right. destruct (id <? nbits) eqn:E; [lia|]. rewrite andb_false_r. reflexivity.
+  - left; reflexivity.
+  - discriminate.
+Qed.
+
+Example query_now_min_shift_0 : query 0 5 0 1 1 = Err.
 Proof. vm_compute. reflexivity. Qed.
-Example query_witness_shift_64 : query 200 5 0 1 1 = Panic S_SHL_USIZE.
+Example query_now_shift_64 : query 200 5 0 1 1 = Err.
 Proof. vm_compute. reflexivity. Qed.
-Example query_witness_depth_30 : query 1 30 0 1 1 = Panic S_SHL_USIZE.
+Example query_now_depth_11 : query 14 11 0 1 1 = Err.
 Proof. vm_compute. reflexivity. Qed.
-Example query_witness_depth_11 : query 14 11 0 1 1 = Panic S_ASSERT_DEPTH.
+Example query_now_depth_10 : query 14 10 0 1 1 = Ok true.
 Proof. vm_compute. reflexivity. Qed.
-Example query_witness_depth_10 : query 14 10 0 1 1 = Panic S_SHL_I32.
-Proof. vm_compute. reflexivity. Qed.
-Example query_witness_bin_id : query 14 5 37449 1 1 = Panic S_BITVEC_INDEX.
+Example query_now_bin_id : query 14 5 37449 1 1 = Ok false.
 Proof. vm_compute. reflexivity. Qed.
 Example query_ok_example : query 14 5 4681 1 16384 = Ok true.
 Proof. vm_compute. reflexivity. Qed.
 Example query_err_example : query 14 5 0 1 536870912 = Err.
 Proof. vm_compute. reflexivity. Qed.
 
-(* when the geometry is hostile the panic happens whatever the region and the bins are *)
-Theorem query_hostile_geometry_panics : forall ms depth id s e,
-  ms = 0 \/ 64 <= ms + 3 * depth -> is_panic (query ms depth id s e) = true.
-Proof.
-  intros ms depth id s e H. unfold query, resolve_interval, max_position.
-  destruct (ms =? 0) eqn:E0; [reflexivity|].
-  destruct (64 <=? ms + 3 * depth) eqn:E64; [reflexivity | lia].
-Qed.
-
-(* a bin id at or above the bit-vector length panics on every query that reaches the filter *)
-Theorem query_hostile_bin_panics : forall ms depth id s e nbits,
-  bin_limit depth = Ok nbits -> nbits <= id ->
-  query ms depth id s e = Err \/ is_panic (query ms depth id s e) = true.
-Proof.
-  intros ms depth id s e nbits Hb Hid. unfold query.
-  destruct (resolve_interval ms depth s e) as [[s' e']| |x]; [|left; reflexivity|right; reflexivity].
-  rewrite Hb.
-  destruct (reg2bins (N.to_nat depth) 0 0 (ms + depth * 3) (s' - 1) (e' - 1) nbits id false) as [sel| |x].
-  - destruct (id <? nbits) eqn:E; [lia | right; reflexivity].
-  - left; reflexivity.
-  - right; reflexivity.
-Qed.
+(* the code before the repairs: one witness per panic site (fixed findings) *)
+Lemma query_v0_witnesses :
+  query_v0 0 5 0 1 1 = Panic S_ASSERT_MIN_SHIFT /\
+  query_v0 200 5 0 1 1 = Panic S_SHL_USIZE /\
+  query_v0 1 30 0 1 1 = Panic S_SHL_USIZE /\
+  query_v0 14 11 0 1 1 = Panic S_ASSERT_DEPTH /\
+  query_v0 14 10 0 1 1 = Panic S_SHL_I32 /\
+  query_v0 14 5 37449 1 1 = Panic S_BITVEC_INDEX.
+Proof. repeat split; vm_compute; reflexivity. Qed.
 
 (* ------------------------------------------------------------------------------------------ *)
 (* (3) rANS 4x8 order-0 frequency table: witnesses of the two arithmetic panics (candidate F10)
